@@ -15,6 +15,8 @@ func init() {
 		ID: "C05",
 		Explanation: "Decides four structural conditions without which a crashing input exists: R1 no nil handler can be selected (every node with handlers has the 405 and OPTIONS entries: a installs, b reserved keys not deletable by name, c automatic entries deleted only together when nothing else is left); R2 first-byte index coherence (= C03.R1/R2, the children[indexes[b]] access); R3 no explicit panic is reachable from serving/parsing entry points, registration panics carry an error value; R4 guard pairing for data-derived indexing on the serving path; R5 CheckSyntax, URL and registration share one parser; R6 the CORS procedure (which dereferences the matched node) runs only on the served edge, where the node is non-nil. " +
 			"R7 (= C01.R4) the handler Tree.Handler reports as found comes from a comma-ok lookup on a node that has handlers (never a nil handler handed to the call function); R8 (= C07.R3 d, e) a pooled context is released once and not touched afterwards (two requests sharing one context die with concurrent map writes). " +
+			"R17 an index that is compared with a length is compared with the length of the collection it indexes. " +
+			"R18 no store into a Context's parameter map is reachable with the map nil; R5 also: CheckSyntax and Tree.Add succeed only behind the parser. " +
 			"Not decided: absence of runtime faults for arbitrary bytes in general (no bounds prover in reach; the compiler's prove pass leaves about 100 bounds checks unproven).",
 		Assumptions: commonAssumptions,
 		Run: func(c *Ctx) {
@@ -38,6 +40,8 @@ func init() {
 			ruleAdjacencyIsDecidedOnTheText(c, "R15")
 			ruleRegexpSplitOnRuneBoundary(c, "R16")
 			ruleIndexedFieldsKeepValidatedText(c, "R12")
+			ruleIndexBoundedByItsOwnLength(c, "R17")
+			ruleZeroContextIsUsable(c, "R18")
 		},
 	})
 }
@@ -175,6 +179,33 @@ func ruleOneParser(c *Ctx, rule string) {
 		reach := g.Reach([]*ssa.Function{f}, static)
 		_, ok := reach[split]
 		c.R.Add(rule, k, "parses-with:"+an.FuncKey(split), c.P.Pos(f.Pos()), ok, ifelse(ok, an.Chain(reach, split), "does not parse through "+an.FuncKey(split)+": a second parser can disagree with CheckSyntax"))
+		// … on every path: no success return in front of the parser (a shortcut for "plain" patterns skips what
+		// the parser checks for every pattern — the length limit of a segment — and then disagrees with Handle)
+		if ok && an.ErrorResultIndex(f) >= 0 && (k == "mux.CheckSyntax" || k == "tree.(*Tree).Add") { // URL returns the pattern as it is when there are no parameters to substitute
+			callsParser := func(in ssa.Instruction) bool {
+				call := an.CallOf(in)
+				if call == nil {
+					return false
+				}
+				gg := an.StaticCallee(call)
+				if gg == nil {
+					return false
+				}
+				if an.Origin(gg) == an.Origin(split) {
+					return true
+				}
+				_, below := g.Reach([]*ssa.Function{gg}, static)[split]
+				return below
+			}
+			path := (&an.Query{
+				Block:  callsParser,
+				Target: func(in ssa.Instruction) bool { r, isRet := in.(*ssa.Return); return isRet && an.IsSuccessReturn(r) },
+			}).Search(an.Entry(f))
+			o := c.R.Add(rule, k, "success-only-behind:"+an.FuncKey(split), c.P.Pos(f.Pos()), path == nil, ifelse(path == nil, "every success return is behind the parser", "a success return is reachable without parsing the pattern: what the parser refuses for every pattern (an over-long segment) is accepted on this path, and the function disagrees with the others"))
+			if path != nil {
+				o.Path = c.P.PathString(path)
+			}
+		}
 	}
 	reach := g.Reach([]*ssa.Function{split}, static)
 	_, ok := reach[newSeg]
